@@ -18,6 +18,7 @@ case "$name" in
   *-j) base="${name%-j}"; wt=/tmp/seed10-$base; out=/tmp/seed10-$base-out ;;
   *-k) base="${name%-k}"; wt=/tmp/seed11-$base; out=/tmp/seed11-$base-out ;;
   *-l) base="${name%-l}"; wt=/tmp/seed12-$base; out=/tmp/seed12-$base-out ;;
+  *-m) base="${name%-m}"; wt=/tmp/seed13-$base; out=/tmp/seed13-$base-out ;;
   *)   wt=/tmp/seed-$name; out=/tmp/seed-$name-out ;;
 esac
 dst=/verif/seeded/$name
